@@ -1,6 +1,11 @@
-"""setup_cmd self-test: solvers are present and the engine separates a valid from an invalid toy contract."""
+"""setup_cmd self-test: the solvers are present and the engine separates valid from invalid toy contracts.
+
+Every case is a tiny function with a contract and the verdict it must get: `True` = every obligation is
+discharged, `False` = at least one obligation is NOT discharged (a pipeline that proves a wrong program, or that
+cannot prove a right one, fails the setup).  The cases exercise the constructs the property contracts rely on:
+loops with invariants, quantified postconditions, dict comprehensions, marker triggers with goal skolemisation,
+the unbound-local obligation, strings as character sequences, max(enumerate(..), key=itemgetter(1))."""
 import ast
-import os
 import shutil
 import sys
 import tempfile
@@ -23,16 +28,158 @@ def bad_total(xs):
     for x in xs:
         s = s + x
     return s + 1
+
+def clip_all(xs, hi):
+    out = []
+    for x in xs:
+        if x > hi:
+            out.append(hi)
+        else:
+            out.append(x)
+    return out
+
+def bad_clip_all(xs, hi):
+    out = []
+    for x in xs:
+        if x > hi:
+            out.append(hi)
+        else:
+            out.append(x + 1)
+    return out
+
+def counters(names):
+    counts = {name: 0 for name in names}
+    for name in names:
+        counts[name] += 1
+    return counts
+
+def bad_counters(names):
+    counts = {name: 0 for name in names}
+    for name in names:
+        counts[name] -= 1
+    return counts
+
+def pick(flag, xs):
+    if flag:
+        best = xs[0]
+    if len(xs) > 0 and flag:
+        return best
+    return 0
+
+def bad_pick(flag, xs):
+    if flag:
+        best = xs[0]
+    if len(xs) > 0:
+        return best
+    return 0
+
+def bracket(word, idx, tag):
+    return word[:idx] + "[" + tag + "]" + word[idx:]
+
+def bad_bracket(word, idx, tag):
+    return word[:idx] + "[" + tag + "]" + word[idx + 1:]
+
+def argbest(pairs):
+    i, v = max(enumerate(map(itemgetter(1), pairs)), key=itemgetter(1))
+    return i
+
+def bad_argbest(pairs):
+    i, v = min(enumerate(map(itemgetter(1), pairs)), key=itemgetter(1))
+    return i
+
+def fill_sorted(n):
+    out = []
+    for i in range(n):
+        out.append(2 * i)
+    return out
+
+def bad_fill_sorted(n):
+    out = []
+    for i in range(n):
+        out.append(n - i)
+    return out
 '''
 
+_SORTED = ("forall(lambda a, b: implies(0 <= a <= b < len(%s), %s[a] <= %s[b]), "
+           "trigger=lambda a, b: marked('ord', a, b))")
 
-def verdicts(fn_name, workdir):
-    c = Contract(target="toy." + fn_name, params={"xs": "list[int]"}, returns="int",
-                 ensures=["result == psum(xs, len(xs))"],
-                 loops={0: Loop(invariant=["s == psum(xs, _k0)"])})
+CASES = [
+    # (function, expected all-discharged?, contract kwargs)
+    ("total", True, dict(params={"xs": "list[int]"}, returns="int", ensures=["result == psum(xs, len(xs))"],
+                         loops={0: Loop(invariant=["s == psum(xs, _k0)"])})),
+    ("bad_total", False, dict(params={"xs": "list[int]"}, returns="int", ensures=["result == psum(xs, len(xs))"],
+                              loops={0: Loop(invariant=["s == psum(xs, _k0)"])})),
+    ("clip_all", True, dict(params={"xs": "list[int]", "hi": "int"}, returns="list[int]",
+                            locals={"out": "list[int]"},
+                            ensures=["len(result) == len(xs)",
+                                     "all(result[i] == (hi if xs[i] > hi else xs[i]) for i in range(len(xs)))"],
+                            loops={0: Loop(invariant=[
+                                "len(out) == _k0",
+                                "all(out[i] == (hi if xs[i] > hi else xs[i]) for i in range(_k0))"])})),
+    ("bad_clip_all", False, dict(params={"xs": "list[int]", "hi": "int"}, returns="list[int]",
+                                 locals={"out": "list[int]"},
+                                 ensures=["len(result) == len(xs)",
+                                          "all(result[i] == (hi if xs[i] > hi else xs[i]) for i in range(len(xs)))"],
+                                 loops={0: Loop(invariant=[
+                                     "len(out) == _k0",
+                                     "all(out[i] == (hi if xs[i] > hi else xs[i]) for i in range(_k0))"])})),
+    ("counters", True, dict(params={"names": "list[str]"}, returns="dict[str,int]",
+                            locals={"counts": "dict[str,int]"},
+                            ensures=["all(names[i] in result and result[names[i]] >= 0 for i in range(len(names)))"],
+                            loops={0: Loop(invariant=[
+                                "all(names[i] in counts and counts[names[i]] >= 0 for i in range(len(names)))"])})),
+    ("bad_counters", False, dict(params={"names": "list[str]"}, returns="dict[str,int]",
+                                 locals={"counts": "dict[str,int]"},
+                                 ensures=["all(names[i] in result and result[names[i]] >= 0 "
+                                          "for i in range(len(names)))"],
+                                 loops={0: Loop(invariant=[
+                                     "all(names[i] in counts and counts[names[i]] >= 0 "
+                                     "for i in range(len(names)))"])})),
+    # reading a local that is unbound on a feasible path must fail (safety.bound)
+    ("pick", True, dict(params={"flag": "bool", "xs": "list[int]"}, returns="int", locals={"best": "int"},
+                        requires=["implies(flag, len(xs) > 0)"], ensures=["implies(flag, result == xs[0])"])),
+    ("bad_pick", False, dict(params={"flag": "bool", "xs": "list[int]"}, returns="int", locals={"best": "int"},
+                             requires=["implies(flag, len(xs) > 0)"], ensures=["implies(flag, result == xs[0])"])),
+    ("bracket", True, dict(params={"word": "list[Char]", "idx": "int", "tag": "list[Char]"}, returns="list[Char]",
+                           requires=["0 <= idx <= len(word)"],
+                           ensures=["len(result) == len(word) + len(tag) + 2",
+                                    "result[idx] == chars('[')[0]",
+                                    "all(result[idx + 2 + len(tag) + q] == word[idx + q] "
+                                    "for q in range(len(word) - idx))"])),
+    ("bad_bracket", False, dict(params={"word": "list[Char]", "idx": "int", "tag": "list[Char]"},
+                                returns="list[Char]", requires=["0 <= idx <= len(word)"],
+                                ensures=["len(result) == len(word) + len(tag) + 2",
+                                         "result[idx] == chars('[')[0]",
+                                         "all(result[idx + 2 + len(tag) + q] == word[idx + q] "
+                                         "for q in range(len(word) - idx))"])),
+    ("argbest", True, dict(params={"pairs": "list[tuple[str,int]]"}, returns="int",
+                           requires=["len(pairs) >= 1"],
+                           ensures=["0 <= result < len(pairs)",
+                                    "all(pairs[j][1] <= pairs[result][1] for j in range(len(pairs)))"])),
+    ("bad_argbest", False, dict(params={"pairs": "list[tuple[str,int]]"}, returns="int",
+                                requires=["len(pairs) >= 1"],
+                                ensures=["0 <= result < len(pairs)",
+                                         "all(pairs[j][1] <= pairs[result][1] for j in range(len(pairs)))"])),
+    # pairwise sortedness behind a marker trigger: the goal's own instance is made available by skolemisation
+    ("fill_sorted", True, dict(params={"n": "int"}, returns="list[int]", locals={"out": "list[int]"},
+                               requires=["n >= 0"], ensures=[_SORTED % ("result", "result", "result")],
+                               loops={0: Loop(invariant=["len(out) == _k0",
+                                                         "all(out[i] == 2 * i for i in range(_k0))"])})),
+    ("bad_fill_sorted", False, dict(params={"n": "int"}, returns="list[int]", locals={"out": "list[int]"},
+                                    requires=["n >= 0"], ensures=[_SORTED % ("result", "result", "result")],
+                                    loops={0: Loop(invariant=["len(out) == _k0",
+                                                              "all(out[i] == n - i for i in range(_k0))"])})),
+]
+
+
+def verdicts(fn_name, kwargs, workdir):
+    c = Contract(target="toy." + fn_name, **kwargs)
     ex = Exec(c, find_function(ast.parse(SRC), fn_name), {}, LIB)
     ex.run()
-    items = [("%s_%d" % (fn_name, i), solve.vc_text(o.hyps, o.goal)) for i, o in enumerate(ex.obls)]
+    if not ex.obls:
+        return ["no-obligations"]
+    distinct = list(ex.strlits.values())
+    items = [("%s_%d" % (fn_name, i), solve.vc_text(o.hyps, o.goal, distinct)) for i, o in enumerate(ex.obls)]
     res = solve.solve_all(items, 10, workdir)
     return [res[t]["status"] for t, _ in items]
 
@@ -43,14 +190,22 @@ def main():
             print("selftest: solver %s not found" % tool)
             return 1
     wd = tempfile.mkdtemp(prefix="selftest_")
+    bad = []
     try:
-        good = verdicts("total", wd)
-        bad = verdicts("bad_total", wd)
+        for fn, want, kw in CASES:
+            try:
+                v = verdicts(fn, kw, wd)
+            except Exception as e:  # noqa
+                v = ["engine-error: %r" % e]
+            all_ok = all(x == "unsat" for x in v)
+            if any(x in ("error", "disagree") or x.startswith(("engine-error", "no-obl")) for x in v) or all_ok != want:
+                bad.append((fn, want, v))
     finally:
         shutil.rmtree(wd, ignore_errors=True)
-    ok = all(v == "unsat" for v in good) and any(v != "unsat" for v in bad) and len(good) >= 3
-    print("selftest: valid toy %s, invalid toy %s -> %s" % (good, bad, "ok" if ok else "FAILED"))
-    return 0 if ok else 1
+    for fn, want, v in bad:
+        print("selftest: %s expected %s, got %s" % (fn, "all discharged" if want else "a failing obligation", v))
+    print("selftest: %d cases, %d wrong -> %s" % (len(CASES), len(bad), "ok" if not bad else "FAILED"))
+    return 0 if not bad else 1
 
 
 if __name__ == "__main__":
